@@ -86,7 +86,7 @@ def make_replay(pid, name, ob, seed, native=True):
         rec['native'] = {'status': 'unavailable', 'detail': info}
     else:
         rc, out, cmd = run_driver(exe, inputs, name, seed)
-        found = rc == 1 and 'FAILING-INPUT' in out
+        found = (rc == 1 and 'FAILING-INPUT' in out) or (rc != 0 and 'ThreadSanitizer: data race' in out)
         rec['native'] = {'build': info, 'cmd': cmd, 'exit': rc, 'output': out, 'failing_input_found': found}
         _FIRST.setdefault(pid, rec['native'])
     h = hashlib.sha1((name + json.dumps(inputs, sort_keys=True)).encode()).hexdigest()[:10]
@@ -106,7 +106,7 @@ def run_replay(pid, path, seed):
         return 2
     rc, out, cmd = run_driver(exe, rec.get('inputs', {}), rec.get('obligation', ''), seed)
     print(out)
-    if rc == 1 and 'FAILING-INPUT' in out:
+    if (rc == 1 and 'FAILING-INPUT' in out) or (rc != 0 and 'ThreadSanitizer: data race' in out):
         print('VIOLATION property=%s replay=%s' % (pid, path))
         return 1
     print('replay: the recorded obligation %s does not reproduce natively on the current tree' % rec.get('obligation'))
